@@ -59,8 +59,25 @@ def r1_marker(c, facts):
             if f_t and fn.dominates(f_t[0], mb):
                 guarded = True
                 true_target = sw['otherwise']
+    how = 'the false edge of refs.contains_key(ident)'
+    if not guarded:
+        # `match refs.get(&ident).cloned() { None => <first evaluation>, Some(None) => .., Some(Some(v)) => .. }`
+        for b, blk in fn.blocks():
+            sw = blk['term']
+            if sw['t'] != 'switch' or 'l' not in sw['discr']:
+                continue
+            dd = [s for s in blk['stmts'] if s['s'] == 'assign' and s['place']['l'] == sw['discr']['l'] and s['rv']['r'] == 'discr']
+            if not dd or any(x['p'] == 'downcast' for x in dd[0]['rv']['place']['proj']):
+                continue
+            names = {P.strip(n).split('::')[-1] for n, _, _ in MF.slice_back(fn, dd[0]['rv']['place']['l'], idx, through_calls=True)['calls']}
+            src = [n for n, _, _ in MF.slice_back(fn, dd[0]['rv']['place']['l'], idx)['calls'] if P.strip(n).endswith('IndexMap::get')]
+            ee = P.enum_edges(sw)
+            if src and '0' in ee and '1' in ee and fn.dominates(ee['0'], mb) and not fn.dominates(ee['1'], mb):
+                guarded = True
+                true_target = ee['1']
+                how = 'the None arm of refs.get(ident)'
     if guarded:
-        c.ok(R, {'marker': 'on the false edge of refs.contains_key(ident)', 'line': mt['ln']})
+        c.ok(R, {'marker': 'on ' + how, 'line': mt['ln']})
     else:
         c.bad(R, 'marker-not-guarded-by-contains_key', 'the marker insert is not on the not-yet-evaluated edge of contains_key (a declaration can be evaluated twice)')
     evals = [(b, t) for b, t in P.call_blocks(fn, 'eval::eval_any') if fn.dominates(mb, b) and fn.dominates(b, vb)]
